@@ -948,11 +948,24 @@ def linked_shards_probe(ctx, rep, mine):
         u = sc.users[0]
         args, files = sc.make_files(u, big=True)
         sc.op_snapshot(u, args, files)
+        first = next(iter(sc.snaps))
         sc.rng = random.Random(1)
         for _ in range(4):
             sc.relocated = False
             sc.op_relocate()                      # repeated: every shard ends up linked
-        name = next(iter(sc.snaps))
+        # with every shard linked: listings are complete, unchanged data transfers nothing, a second snapshot sharing the chunks and its
+        # deletion leave the first one whole and the chunk area exact
+        sc.op_observe(u)
+        args2, files2 = sc.make_files(u)
+        sc.op_snapshot(u, list(args) + list(args2), dict(files, **files2), what='repeat')
+        second = [n for n in sc.snaps if n != first][0]
+        sc.op_delete(u, [second])
+        objs_, _ = sc.dep.disk()
+        data_ = {n for n in objs_ if n.startswith('data/')}
+        if data_ != sc.referenced(objs_):
+            sc.v('not_exact', f'with linked shard directories: after snapshot + delete the chunk objects differ from the chunks referenced: '
+                              f'{len(data_ - sc.referenced(objs_))} unreferenced, {len(sc.referenced(objs_) - data_)} missing')
+        name = first
         sc.op_delete(u, [name])
         orphan = sc.dep.repo / 'data' / 'zz' / 'yy' / 'orphan-of-an-interrupted-snapshot'
         orphan.parent.mkdir(parents=True)
